@@ -38,8 +38,8 @@ doc = {
     "engines": [
         {"name": "explorer", "path": "/verif/mc/engine.py", "serves_properties": [p for p in ids if p in CHECKS and CHECKS[p].get("engine", "explorer") == "explorer"],
          "kind_free_text": "explicit-state breadth-first exploration of the real env.reset/env.step (jit∘vmap over states × the complete action alphabet), full-state hashing, monitors on every node and edge, eager per-call re-validation of explored paths"},
-        {"name": "enumerator", "path": "/verif/mc/enumerate.py", "serves_properties": [p for p in ids if p in CHECKS and CHECKS[p].get("engine") == "enumerator"],
-         "kind_free_text": "bounded-exhaustive enumeration of inputs / call histories over small alphabets against NumPy reference models"},
+        {"name": "enumerator", "path": "/verif/mc/checks", "serves_properties": [p for p in ids if p in CHECKS and CHECKS[p].get("engine") == "enumerator"],
+         "kind_free_text": "bounded-exhaustive enumeration of inputs / call histories over small alphabets against NumPy reference models (no separate engine file: mc/checks/c10.py, c15.py-c19.py with mc/c10_core.py, c10_val_*.py, c15_adapters.py, c15_mts.py, c16_universe.py, c16_ref.py, c17_cube.py, c17_cuberef.py, c17_slide.py; tasks are spread over processes by mc/runner.py)"},
     ],
     "checks": checks,
     "not_applicable": na,
